@@ -124,6 +124,9 @@ func (ip *IPv4) SerializeTo(b gopacket.SerializeBuffer, opts gopacket.SerializeO
 		bytes[i] = 0
 	}
 	if opts.FixLengths {
+		if len(b.Bytes()) > 65535 {
+			return fmt.Errorf("IPv4 packet of %d bytes does not fit the 16 bit total length", len(b.Bytes()))
+		}
 		ip.IHL = 5 + (optionLength / 4)
 		ip.Length = uint16(len(b.Bytes()))
 	}
